@@ -558,6 +558,10 @@ def n8(prog, ctx):
 
 
 def run(prog, ctx):
+    ctx.rule("N9", "rule K2 of C18 run for C04: every comparison of reference dinucleotides with the canonical splice-site tables sees them "
+                   "upper-cased (a novel model in soft-masked sequence must get the strand of its GT..AG / CT..AC introns, not '.')")
+    from . import c18 as _c18
+    _c18.k2(prog, ctx, tag="N9")
     ctx.rule("N8", "in detect_similar_isoforms neither the iterable of the inner (candidate) loop nor the tests that skip a candidate depend on "
                    "the outer model's position in the storage (enumerate index, range variable, per-iteration counter)")
     n8(prog, ctx)
